@@ -37,7 +37,9 @@ impl OutputFormat for TundraDraw {
     fn to_bytes(&self, buf: &crate::Buffer, options: &SaveOptions) -> EngineResult<Vec<u8>> {
         let mut result = vec![TUNDRA_VER]; // version
         result.extend(TUNDRA_HEADER);
-        let mut attr = TextAttribute::from_u8(0, buf.ice_mode);
+        // a reader starts with black on black, whatever the palette holds at index 0
+        let mut last_fg = (0, 0, 0);
+        let mut last_bg = (0, 0, 0);
         let mut skip_pos = None;
         let mut colors = HashSet::new();
 
@@ -84,13 +86,17 @@ impl OutputFormat for TundraDraw {
 
                 let mut cmd = 0;
                 // characters 1..=6 are command codes, they are always written with a (possibly unchanged) foreground color
-                let write_foreground = (1..=6).contains(&ch)
-                    || buf.palette.get_color(attr.get_foreground()).get_rgb() != buf.palette.get_color(cur_attr.get_foreground()).get_rgb()
-                    || attr.is_bold() != cur_attr.is_bold();
+                let mut fg = cur_attr.get_foreground();
+                if cur_attr.is_bold() {
+                    fg += 8;
+                }
+                let fg_rgb = buf.palette.get_rgb(fg);
+                let bg_rgb = buf.palette.get_rgb(cur_attr.get_background());
+                let write_foreground = (1..=6).contains(&ch) || fg_rgb != last_fg;
                 if write_foreground {
                     cmd |= TUNDRA_COLOR_FOREGROUND;
                 }
-                let write_background = buf.palette.get_color(attr.get_background()).get_rgb() != buf.palette.get_color(cur_attr.get_background()).get_rgb();
+                let write_background = bg_rgb != last_bg;
                 if write_background {
                     cmd |= TUNDRA_COLOR_BACKGROUND;
                 }
@@ -99,27 +105,21 @@ impl OutputFormat for TundraDraw {
                     result.push(cmd);
                     result.push(ch as u8);
                     if write_foreground {
-                        let mut fg = cur_attr.get_foreground();
-                        if cur_attr.is_bold() {
-                            fg += 8;
-                        }
                         colors.insert(fg);
-                        let rgb = buf.palette.get_rgb(fg);
                         result.push(0);
-                        result.push(rgb.0);
-                        result.push(rgb.1);
-                        result.push(rgb.2);
+                        result.push(fg_rgb.0);
+                        result.push(fg_rgb.1);
+                        result.push(fg_rgb.2);
+                        last_fg = fg_rgb;
                     }
                     if write_background {
                         colors.insert(cur_attr.get_background());
-
-                        let rgb = buf.palette.get_rgb(cur_attr.get_background());
                         result.push(0);
-                        result.push(rgb.0);
-                        result.push(rgb.1);
-                        result.push(rgb.2);
+                        result.push(bg_rgb.0);
+                        result.push(bg_rgb.1);
+                        result.push(bg_rgb.2);
+                        last_bg = bg_rgb;
                     }
-                    attr = cur_attr;
                     continue;
                 }
                 result.push(ch as u8);
